@@ -9,8 +9,31 @@ NEEDS = ("runner", "cli")
 MODELLED = ["typescript", "kotlin", "scala", "python", "swift", "go"]
 
 
-def make_tree(rng, nfiles, multi, with_consts):
-    """files: list of dict(rel path, crate, abstract file); type names disjoint across files"""
+def const_item(rng, name):
+    return {"kind": "const", "attrs": [m_path("typeshare")], "ident": name, "ty": t_path(rng.choice(["u32", "u8", "i32"])),
+            "expr_text": str(rng.randint(0, 999)), "init": None}
+
+
+def make_tree(rng, nfiles, multi, with_consts, only=None):
+    """files: list of dict(rel path, crate, abstract file); type names disjoint across files.
+    `only`: restrict every file to one item kind ("const", "struct", "enum", "alias") - crates that hold a single
+    kind of item take different paths through reconcile / generate"""
+    if only == "const":
+        crates = ["alpha", "beta-x"] if multi else [""]
+        names = ["C_%s" % w.upper() for w in rng.sample(TYPE_WORDS, 2 * nfiles)]
+        rng.shuffle(names)
+        files = []
+        for i in range(nfiles):
+            items = []
+            for nm in names[2 * i:2 * i + 2]:
+                c = const_item(rng, nm)
+                v = rng.randint(0, 999)
+                c["expr_text"], c["init"] = str(v), ("i", v, "")
+                items.append(c)
+            crate = rng.choice(crates)
+            rel = ("%s/src/f%d.rs" % (crate, i)) if multi else ("src/f%d.rs" % i)
+            files.append(dict(rel=rel, crate=crate.replace("-", "_"), file={"attrs": [], "items": items}))
+        return files, Gen(rng)
     pool = TYPE_WORDS + [w + "Two" for w in TYPE_WORDS]
     words = rng.sample(pool, 3 * nfiles)
     crates = ["alpha", "beta-x"] if multi else [""]
@@ -64,7 +87,7 @@ def run_once(sc, lang, multi, env):
 
 def run(check):
     rng = check.rng
-    ntrees = 30 if check.thorough else 8
+    ntrees = 96 if check.thorough else 24
     max_exh = 5 if check.thorough else 4
     check.rule = ("source trees of 2-12 files (structs, enums, aliases, consts; types referencing each other across files), "
                   "single-file and multi-file mode, six languages; the real binary under every arrival order of the per-file "
@@ -76,7 +99,10 @@ def run(check):
         lang = LANGS[t % 6]
         multi = (t // 6) % 2 == 1
         nfiles = rng.randint(2, max_exh) if t % 3 else rng.randint(6, 12)
-        files, g = make_tree(rng, nfiles, multi, with_consts=(t % 2 == 0))
+        only = "const" if t % 4 == 3 else None
+        if only == "const" and lang in ("kotlin", "swift", "scala"):
+            lang = ["typescript", "go", "python"][t % 3]        # the back ends that emit consts
+        files, g = make_tree(rng, nfiles, multi, with_consts=(t % 2 == 0), only=only)
         spread = consts_spread(files)
         with Scratch() as sc:
             for f in files:
